@@ -124,6 +124,9 @@ Judge(e) ==
     [] e.ev = "idle_effect" -> JIdleEffect(e)
     [] e.ev = "migration" -> JMigration(e)
     [] e.ev = "reload" -> JReload(e)
+    \* a domain URL connects where the configured resolver says; the server sees the URL's authority
+    [] e.ev = "resolver" -> /\ e.explicit_port_connected /\ e.default_port_connected
+                            /\ e.explicit_port_authority = S_svc9 /\ e.default_port_authority = S_svc
 
 Init == l = 1 /\ bad = 0
 Next ==
